@@ -561,6 +561,118 @@ func ptrPeelLoop(l *loopInfo) bool {
 	return l.body[stay]
 }
 
+// typeKeyedLiteral: see c03Assert.
+func (c *Ctx) typeKeyedLiteral(fn *ssa.Function, ta *ssa.TypeAssert) bool {
+	if fn.Parent() == nil || len(fn.Params) == 0 || len(fn.FreeVars) != 0 {
+		return false
+	}
+	p0, ok := stripIface(ta.X).(*ssa.Parameter)
+	if !ok || p0 != fn.Params[0] {
+		return false
+	}
+	typeOfArg := func(v ssa.Value) ssa.Value {
+		call, ok := v.(*ssa.Call)
+		if !ok || !isFuncCall(call, "reflect", "TypeOf") || len(call.Call.Args) != 1 {
+			return nil
+		}
+		return call.Call.Args[0]
+	}
+	// where the literal goes: one map update in the parent, keyed by reflect.TypeOf(<value of the asserted type>)
+	var table ssa.Value
+	uses := 0
+	for _, b := range fn.Parent().Blocks {
+		for _, in := range b.Instrs {
+			for _, op := range in.Operands(nil) {
+				if *op != ssa.Value(fn) {
+					continue
+				}
+				uses++
+				mu, ok := in.(*ssa.MapUpdate)
+				if !ok || mu.Value != ssa.Value(fn) {
+					return false
+				}
+				arg := typeOfArg(mu.Key)
+				if arg == nil {
+					return false
+				}
+				mi, ok := arg.(*ssa.MakeInterface)
+				if !ok || !types.Identical(mi.X.Type(), ta.AssertedType) {
+					return false
+				}
+				table = mu.Map
+			}
+		}
+	}
+	if uses != 1 || table == nil {
+		return false
+	}
+	// the map is the initial value of one package-level variable
+	var g *ssa.Global
+	for _, ref := range *table.Referrers() {
+		if st, ok := ref.(*ssa.Store); ok && st.Val == table {
+			if gg, ok := st.Addr.(*ssa.Global); ok {
+				g = gg
+			}
+		}
+	}
+	if g == nil {
+		return false
+	}
+	// every other use of the variable: a lookup under reflect.TypeOf(x) whose result is nil-tested or called with x first
+	for _, f := range c.allFns {
+		for _, b := range f.Blocks {
+			for _, in := range b.Instrs {
+				u, ok := in.(*ssa.UnOp)
+				if !ok || u.Op != token.MUL || u.X != ssa.Value(g) {
+					if st, isSt := in.(*ssa.Store); isSt && st.Addr == ssa.Value(g) && st.Val != table {
+						return false
+					}
+					continue
+				}
+				for _, ref := range *u.Referrers() {
+					lk, ok := ref.(*ssa.Lookup)
+					if !ok || lk.X != ssa.Value(u) {
+						return false // ranged over, updated, handed on
+					}
+					x := typeOfArg(lk.Index)
+					if x == nil {
+						return false
+					}
+					var fv ssa.Value = lk
+					for _, r2 := range *lk.Referrers() {
+						if ex, isEx := r2.(*ssa.Extract); isEx && ex.Index == 0 {
+							fv = ex
+						}
+					}
+					vals := []ssa.Value{fv}
+					if fv != ssa.Value(lk) {
+						vals = append(vals, lk)
+					}
+					for _, v := range vals {
+						for _, r3 := range *v.Referrers() {
+							switch t := r3.(type) {
+							case *ssa.Extract:
+							case *ssa.BinOp:
+								if !isNilConst(t.X) && !isNilConst(t.Y) {
+									return false
+								}
+							case *ssa.Call:
+								if t.Call.Value != v || len(t.Call.Args) == 0 || !sameVal(t.Call.Args[0], x) {
+									return false
+								}
+							case *ssa.If:
+							default:
+								return false
+							}
+						}
+					}
+				}
+			}
+		}
+	}
+	return true
+}
+
 func parentOf(f *ssa.Function) *ssa.Function {
 	for f.Parent() != nil {
 		f = f.Parent()
@@ -779,6 +891,12 @@ func c03Assert(c *Ctx, r *Report) {
 							safe, why = true, "inside a case of a type switch on the operand, every type of the case implements the asserted interface"
 						}
 					}
+				}
+				// a function literal kept in a package-level table under the key reflect.TypeOf(T(..)), asserting its
+				// argument to that T; the table is only looked up under reflect.TypeOf(x) and what it yields only
+				// called with that x
+				if !safe && c.typeKeyedLiteral(fn, ta) {
+					safe, why = true, "the function literal is stored under reflect.TypeOf of the asserted type in a table that is only looked up with reflect.TypeOf of the argument it is then called with"
 				}
 				// phi of constructor results
 				if !safe {
